@@ -112,6 +112,28 @@ theorem pySlice_range {α} (s : List α) (a b : Int) (ha : 0 ≤ a) (hab : a ≤
   congr 1
   omega
 
+/-- the same without the bound on `b`: a slice whose end lies beyond the end of the list is clamped by Python (and by
+    pyfaidx), `take` clamps alike -/
+theorem pySlice_range_clamp {α} (s : List α) (a b : Int) (ha : 0 ≤ a) (hab : a ≤ b) :
+    pySlice s a b = (s.drop a.toNat).take (b - a).toNat := by
+  by_cases hb : b ≤ s.length
+  · exact pySlice_range s a b ha hab hb
+  · unfold pySlice
+    simp only
+    have h1 : ¬ a < 0 := by omega
+    have h2 : ¬ b < 0 := by omega
+    simp only [h1, h2, if_false]
+    have e2 : (min b (s.length : Int)).toNat = s.length := by omega
+    by_cases hlen : (s.length : Int) ≤ a
+    · have : s.length ≤ a.toNat := by omega
+      rw [List.drop_eq_nil_of_le this]
+      have : s.length ≤ (min a (s.length : Int)).toNat := by omega
+      rw [List.drop_eq_nil_of_le this]; simp
+    · have e1 : (min a (s.length : Int)).toNat = a.toNat := by omega
+      rw [e1, e2, List.take_eq_take_iff]
+      simp only [List.length_drop]
+      omega
+
 theorem take2_drop_slice {α} (s : List α) (a n k : Nat) (hk : k + 2 ≤ n) :
     (((s.drop a).take n).drop k).take 2 = (s.drop (a + k)).take 2 := by
   rw [List.drop_take, List.take_take, List.drop_drop]
